@@ -83,4 +83,11 @@ theorem gen_uniformVariance_eq (d s : ℝ)  : gen_uniformVariance d s = uniformV
   simp only [uniformVariance, Cont.sq, transc_pow, Real.rpow_two]
   all_goals first | rfl | ring | (norm_num; done) | (norm_num; ring)
 
+/-- `gaussian.py:Gaussian.variance` -/
+noncomputable def gen_gaussVariance (sg : ℝ) : ℝ := (sg ^ 2)
+theorem gen_gaussVariance_eq (sg : ℝ)  : gen_gaussVariance sg = gaussVarianceOf sg := by
+  unfold gen_gaussVariance
+  simp only [gaussVarianceOf, Cont.sq, transc_pow, Real.rpow_two]
+  all_goals first | rfl | ring | (norm_num; done) | (norm_num; ring)
+
 end DPL.Gen.C19
